@@ -16,11 +16,102 @@ EXPLANATION = (
     'when is_done holds (tasks, effects, events empty), so an aborted command — whose tasks R06.b clears — is seen as finished by its host at every '
     'nesting level; R06.g a combinator returns a fresh command hosting its operands, never one of the operands — an operand\'s abort flag is '
     'shared with the handles taken from it, so as host it would govern its siblings (Command::and does this today: known finding C06-F2). '
+    'R06.h the bridge registry frees an entry only when it can no longer be resolved (shared with C09). R06.i who-may-write rule over the atomic flags of the '
+    'command runtime: `aborted` is written by AbortHandle::abort and JoinHandle::abort alone (an evicted, finished or woken task flags nothing — the root '
+    'task shares the command\'s flag, so flagging it would abort the siblings), and every value carrying an aborted flag gets it as tabled: a new command and '
+    'a spawned task a fresh one, the root task and the handles a clone of their owner\'s. '
     'Containment and finality at every injection point '
     'are not decided.')
 
 ATOMIC_LOAD = ['core::sync::atomic::Atomic::load', 'core::sync::atomic::AtomicBool::load']
 ATOMIC_STORE = ['core::sync::atomic::Atomic::store', 'core::sync::atomic::AtomicBool::store']
+
+
+# who may write the command runtime's atomic flags: (function, flag field) -> why
+FLAG_WRITERS = {
+    ('crux_core::command::executor::AbortHandle::abort', 'aborted'): 'the abort handle of a command',
+    ('crux_core::command::executor::JoinHandle::abort', 'aborted'): 'the join handle of a task',
+    ('crux_core::command::executor::Command::run_until_settled', 'finished'): 'a removed task is marked finished for its join handles',
+    ('<crux_core::command::executor::CommandWaker as alloc::task::Wake>::wake_by_ref', 'woken'): 'the per-poll wake mark',
+    ('<crux_core::command::executor::CommandWaker as alloc::task::Wake>::wake', 'woken'): 'the per-poll wake mark',
+}
+# where an `aborted` flag is put into a value, and where it must come from: (function, type) -> 'fresh' | 'shared'
+FLAG_TOPOLOGY = {
+    ('crux_core::command::Command::new', 'Command'): 'fresh',
+    ('crux_core::command::Command::new', 'Task'): 'shared',          # the root task is the command: it shares the command's flag
+    ('crux_core::command::context::CommandContext::spawn', 'Task'): 'fresh',   # a spawned task has its own flag ...
+    ('crux_core::command::context::CommandContext::spawn', 'JoinHandle'): 'shared',  # ... which its join handle shares
+    ('crux_core::command::Command::abort_handle', 'AbortHandle'): 'shared',
+}
+
+
+def check_flag_ownership(rep, core):
+    """R06.i: cancelling is the ONLY way a flag becomes set, and a flag reaches only the work it belongs to: (1) every atomic write in the
+    command runtime is one of the tabled (function, flag) pairs — `aborted` is written by the two abort methods alone, so an evicted,
+    finished or woken task never flags anything; (2) every value that carries an `aborted` flag gets it as tabled: a new command and a
+    spawned task get a fresh flag, the root task / the handles share their owner's."""
+    from rules.facts import keypath
+    rep.rule('R06.i', 'the aborted flags are written only by the abort methods, and each command / spawned task has a flag of its own', floor=8)
+    seen_w = set()
+    for f in core.built:
+        if f.j.get('exp') or '::command::' not in f.npath or '::testing' in f.npath:
+            continue
+        host = core.host_root(f)
+        host = host.replace('executor::<impl crux_core::command::Command<Effect, Event>>', 'executor::Command')
+        for bb, t in f.calls():
+            cn = norm(t.get('callee') or '')
+            if not cn.startswith('core::sync::atomic::Atomic') or not t.get('args') or last_seg(cn) in ('load', 'new', 'fence', 'default', 'fmt', 'as_ptr', 'from'):
+                continue
+            fields = c01.field_of_receiver(f, t['args'][0])
+            known = [x for x in ('aborted', 'finished', 'woken') if x in fields]
+            flag = sorted(fields)[0] if len(fields) == 1 else (known[0] if len(known) == 1 else '?')
+            key = '%s|writes|%s' % (host, flag)
+            if (host, flag) in FLAG_WRITERS:
+                seen_w.add((host, flag))
+                rep.ok('R06.i', key, 'tabled: ' + FLAG_WRITERS[(host, flag)])
+            else:
+                rep.bad('R06.i', key, '%s writes the flag `%s` (%s at %s): only %s may set an aborted flag — work that was not cancelled '
+                        'through a handle (an evicted or finished task, a sibling) must not become aborted, and through the flag it shares, neither may its command'
+                        % (host, flag, last_seg(cn), f.where(bb), 'AbortHandle::abort / JoinHandle::abort'))
+    if len([k for k in seen_w if k[1] == 'aborted']) < 2:
+        rep.bad('R06.i', 'writers', 'expected the two abort methods to write `aborted`, found %s' % sorted(seen_w))
+    seen_t = set()
+    for f in core.built:
+        if f.j.get('exp') or '::testing' in f.npath:
+            continue
+        for bb, i, s in f.stmts('assign'):
+            rv = s['rv']
+            if not (rv['k'] == 'agg' and rv.get('ak') == 'adt' and 'aborted' in (rv.get('fields') or [])):
+                continue
+            host = core.host_root(f)
+            ty = last_seg(norm(rv['adt']))
+            want = FLAG_TOPOLOGY.get((host, ty))
+            key = '%s|%s|flag' % (host, ty)
+            if want is None:
+                rep.bad('R06.i', key, 'a %s with an aborted flag is built in %s, which is not in the flag table' % (ty, host))
+                continue
+            seen_t.add((host, ty))
+            src = origins(f, rv['ops'][rv['fields'].index('aborted')])
+            fresh = bool(src) and all(o.kind == 'call' and call_matches(o.term, ['core::default::Default::default', 'alloc::sync::Arc::new']) for o in src)
+            def of_owner(o):
+                # a clone of an `aborted` field, or of the fresh flag made in this function for the owner
+                if not (o.kind == 'call' and call_matches(o.term, ['core::clone::Clone::clone'])):
+                    return False
+                if 'aborted' in c01.field_of_receiver(f, o.term['args'][0]):
+                    return True
+                inner = origins(f, o.term['args'][0])
+                return bool(inner) and all(x.kind == 'call' and call_matches(x.term, ['core::default::Default::default', 'alloc::sync::Arc::new']) for x in inner)
+            shared = bool(src) and all(of_owner(o) for o in src)
+            if want == 'fresh':
+                # the fresh flag is not also handed to anything but the values tabled as sharing it
+                rep.expect('R06.i', fresh, key, 'gets a flag of its own (Default::default())',
+                           '%s: the %s no longer gets an aborted flag of its own: cancelling it cancels whatever it now shares the flag with (or the reverse)' % (host, ty))
+            else:
+                rep.expect('R06.i', shared, key, 'shares its owner\'s flag (a clone of the Arc)',
+                           '%s: the %s no longer shares the aborted flag of the work it controls' % (host, ty))
+    missing = [k for k in FLAG_TOPOLOGY if k not in seen_t]
+    if missing:
+        rep.bad('R06.i', 'topology', 'flag constructions not found: %s' % missing)
 
 
 def method(core, adt, name):
@@ -209,6 +300,7 @@ def check(ctx, rep):
                 shared = any(o.kind == 'call' and call_matches(o.term, ['core::clone::Clone::clone']) for o in origins(new, a))
         rep.expect('R06.e', shared, 'Command::new|shared-flag', 'the root task\'s aborted flag is a clone of the command\'s flag',
                    'Command::new: the root task no longer shares the command\'s aborted flag')
+    check_flag_ownership(rep, core)
     # R06.f: an aborted (cleared) command is reported as ended to its host: the stream end is decided by is_done alone (shared with C07 R07.e)
     from rules.props import c07
     c07.check_stream_end(rep, 'R06.f', core)
